@@ -104,6 +104,8 @@ def _r1_site(run, w, R1, fn, site, schema, overrides):
          "formula names are collected while the generated code still carries the old names: the "
          "preparation is never reachable from an emission and every emission is reachable from it",
          not late and early, witness=wit, fi=fn.fi)
+  if late or not early:
+    return
   if len(site.preps) != 1:
     raise AnalysisError("%s: %d calls of _prepare_formula_renames (one expected)"
                         % (q, len(site.preps)))
@@ -268,11 +270,11 @@ def _merge(run, w, R1, fn, site, prep_node, prep_call, overrides, schema):
   for (n, c, nm) in fn.calls():
     if endswith(nm, "self.doBulkUpdateFromPairs") and len(c.args) == 2:
       t = c.args[0]
+      rebound = any(n.id in cfg.reach_after({d}) for d in site.du.defs.get(t.id, set())) \
+          if isinstance(t, ast.Name) else False
       table_ok = (isinstance(t, ast.Constant) and t.value == FORMULA_TABLE) or \
           (isinstance(t, ast.Name) and len(ps) > 1 and t.id == ps[1] and key is not None and
-           key[1] == FORMULA_TABLE and
-           not (site.du.defs.get(t.id, set()) & cfg.reach({cfg.entry.id}, removed={n.id})
-                - {n.id}) )
+           key[1] == FORMULA_TABLE and not rebound)
       try:
         _, root = site.canonical_iter(c.args[1])
       except AnalysisError:
@@ -520,8 +522,10 @@ def r3_positions(run, w):
   # the text patched is the formula of the column the name was found in
   du = DefUse(fn)
   def single_def(name):
-    vals = E.local_defs(fn.node, name)
-    return vals[-1] if vals else None
+    vals = [s.value for s in body_nodes if isinstance(s, ast.Assign) and
+            len(s.targets) == 1 and isinstance(s.targets[0], ast.Name) and
+            s.targets[0].id == name]
+    return vals[0] if len(vals) == 1 else None
   recvar, ok = None, False
   tv = a_text
   if isinstance(tv, ast.Name):
@@ -569,9 +573,9 @@ def r3_positions(run, w):
             endswith(dotted(base.func), "textbuilder.Text", "Text") and len(base.args) == 1 \
             else None
         if isinstance(inner, ast.Name):
-          for b in s.body:
-            if isinstance(b, ast.Assign) and text(b.targets[0]) == inner.id:
-              inner = b.value
+          src = [b.value for b in s.body if isinstance(b, ast.Assign) and
+                 text(b.targets[0]) == inner.id]
+          inner = src[0] if len(src) == 1 else None
         src_ok = inner is not None and text(inner) == kv + ".formula"
         stores = [b for b in s.body if isinstance(b, ast.Assign) and
                   isinstance(b.targets[0], ast.Subscript) and
@@ -672,14 +676,67 @@ _SEEDED_NEW = """    update_pairs = []
     col_updates = OrderedDict()
 """
 
+_ORDER_OLD = '''    if table_renames:
+      # Build up a dictionary mapping col_ref of each affected formula to the new formula text.
+      formula_updates = self._prepare_formula_renames(
+        {(old, None): new for (old, new) in table_renames.items()})
+      # Add the changes to the dict of col_updates. sort for reproducible order.
+      for col_rec, new_formula in sorted(formula_updates.items()):
+        col_updates.setdefault(col_rec, {})['formula'] = new_formula
+
+    # If a table changes to onDemand, any empty columns (formula columns with no set formula)
+    # should be converted to non-formula text columns to avoid SQL errors when they are updated.
+    on_demand_set = [t for t, values in update_pairs
+      if has_diff_value(values, 'onDemand', t.onDemand) and values['onDemand']]
+    empty_cols = [c for t in on_demand_set for c in t.columns if c.isFormula and not c.formula]
+    for col in empty_cols:
+      col_updates.setdefault(col, {}).update(isFormula=False, type='Text')
+
+    for col, values in col_updates.items():
+      if 'type' in values:
+        self.doModifyColumn(col.tableId, col.colId, {'type': 'Int'})
+
+    make_acl_updates = acl.prepare_acl_table_renames(self, table_renames)
+
+    # Collect all the table renames, and do the actual schema actions to apply them.
+    for tbl, values in update_pairs:
+      if has_diff_value(values, 'tableId', tbl.tableId):
+        self._do_doc_action(actions.RenameTable(tbl.tableId, values['tableId']))
+'''
+_ORDER_NEW = '''    # If a table changes to onDemand, any empty columns (formula columns with no set formula)
+    # should be converted to non-formula text columns to avoid SQL errors when they are updated.
+    on_demand_set = [t for t, values in update_pairs
+      if has_diff_value(values, 'onDemand', t.onDemand) and values['onDemand']]
+    empty_cols = [c for t in on_demand_set for c in t.columns if c.isFormula and not c.formula]
+    for col in empty_cols:
+      col_updates.setdefault(col, {}).update(isFormula=False, type='Text')
+
+    for col, values in col_updates.items():
+      if 'type' in values:
+        self.doModifyColumn(col.tableId, col.colId, {'type': 'Int'})
+
+    make_acl_updates = acl.prepare_acl_table_renames(self, table_renames)
+
+    # Collect all the table renames, and do the actual schema actions to apply them.
+    for tbl, values in update_pairs:
+      if has_diff_value(values, 'tableId', tbl.tableId):
+        self._do_doc_action(actions.RenameTable(tbl.tableId, values['tableId']))
+
+    if table_renames:
+      # Build up a dictionary mapping col_ref of each affected formula to the new formula text.
+      formula_updates = self._prepare_formula_renames(
+        {(old, None): new for (old, new) in table_renames.items()})
+      # Add the changes to the dict of col_updates. sort for reproducible order.
+      for col_rec, new_formula in sorted(formula_updates.items()):
+        col_updates.setdefault(col_rec, {})['formula'] = new_formula
+'''
+
 VARIANTS = [
   # the independently seeded bug: summary tables renamed with their source miss the rename map
   ("seeded-summary-tables-missing-from-table-renames", U, _SEEDED_OLD, _SEEDED_NEW, "C16-R1"),
-  ("table-renames-before-summary-pairs", U,
-   "        if new_table_id != rec.tableId:\n          # If there are summary tables based on",
-   "        table_renames = {t.tableId: v['tableId'] for t, v in update_pairs\n"
-   "                         if has_diff_value(v, 'tableId', t.tableId)}\n"
-   "        if new_table_id != rec.tableId:\n          # If there are summary tables based on",
+  ("table-renames-skip-summary-tables", U,
+   "               if has_diff_value(values, 'tableId', t.tableId)}",
+   "               if has_diff_value(values, 'tableId', t.tableId) and not t.summarySourceTable}",
    "C16-R1"),
   ("column-renames-wrong-table-key", U,
    "    renames = {(c.parentId.tableId, c.colId): values['colId']",
@@ -695,15 +752,7 @@ VARIANTS = [
   ("column-formula-updates-not-merged", U,
    "        col_updates.setdefault(col_rec, {}).setdefault('formula', new_formula)",
    "        log.debug('formula of %s changes', col_rec)", "C16-R1"),
-  ("prepare-after-rename-table", U,
-   "    make_acl_updates = acl.prepare_acl_table_renames(self, table_renames)\n",
-   "    make_acl_updates = acl.prepare_acl_table_renames(self, table_renames)\n"
-   "    for tbl, values in update_pairs:\n"
-   "      if has_diff_value(values, 'tableId', tbl.tableId):\n"
-   "        self._do_doc_action(actions.RenameTable(tbl.tableId, values['tableId']))\n"
-   "    update_pairs = [(t, v) for t, v in update_pairs if 'tableId' not in v]\n"
-   "    formula_updates = self._prepare_formula_renames(\n"
-   "      {(old, None): new for (old, new) in table_renames.items()})\n", "C16-R1"),
+  ("prepare-after-rename-table", U, _ORDER_OLD, _ORDER_NEW, "C16-R1"),
   ("rename-column-useraction-emits-directly", U,
    "    self._docmodel.update([col], colId=new_col_id)\n    return col.colId",
    "    self._do_doc_action(actions.RenameColumn(table_id, old_col_id, new_col_id))\n"
